@@ -18,6 +18,7 @@ func init() {
 			"(C15-inv) removing a pod from the cache's owner index invalidates the owner's cached verdicts on every exit that does not know a non-empty remaining pod set of that owner (path states; `the owner is not in the index` is not such knowledge: the index is reset on every policy change). " +
 			"(C15-upd) wherever a pod is stored into the pods map, a lookup of the map under the same key guards a call that removes cached results before the store: an object that replaces an existing pod may differ in its container ports, which the cache key does not hold (defect F22, repaired). " +
 			"(C15-inv-match) the scan that removes the cached results of an owner finds them by containment of the owner key and by nothing narrower (a narrower predicate has to agree with the layout of the key). " +
+			"(C15-ident) what DeleteObject removes is what InsertObject stored for an EQUAL object (a watch delivers another pointer): the insert and delete methods of one API type substitute the same constants for the object's identity components (an empty namespace becomes `default` on both sides or on neither), and the delete side never recognises the stored object by comparing pointers with its argument (defects F23, F24, repaired). " +
 			"NOT decided: the answers themselves, correctness of deleteWorkload's substring matching, lru eviction, verdict changes through pod fields outside the cache key."
 		rules.CacheInvalidation(p, r)
 		rules.PreScanCannotFail(p, r, "E4a-scan")
@@ -54,6 +55,7 @@ func init() {
 		rules.CacheKeyShape(p, r, "C15-d-key")
 		rules.PodReplacementInvalidates(p, r, "C15-upd")
 		rules.InvalidationMatchesByContainment(p, r, "C15-inv-match")
+		rules.ObjectIdentityAgreement(p, r, "C15-ident")
 		r.Floor("E4a", 8)
 		r.Assume("pod-granular cache bookkeeping (addPod/deletePod) is accepted as invalidation for podsMap only: the cache key embeds namespace, owner name and label hash of both pods")
 		r.Assume("a closure is invoked before its creating function returns (true for every closure of the module: sort callbacks, option setters are not on these paths)")
